@@ -10,6 +10,7 @@ import (
 	"os"
 	"strconv"
 	"strings"
+	"sync"
 	"time"
 
 	"github.com/btcsuite/btcd/blockchain"
@@ -181,6 +182,17 @@ func makeParams(c cfg) *chaincfg.Params {
 	p := chaincfg.RegressionNetParams
 	p.CoinbaseMaturity = uint16(c.maturity)
 	p.Checkpoints = nil
+	// the shipped starters/enders are shared objects that remember one chain's clock: give
+	// every instance its own
+	for i := range p.Deployments {
+		d := &p.Deployments[i]
+		if st, ok := d.DeploymentStarter.(*chaincfg.MedianTimeDeploymentStarter); ok {
+			d.DeploymentStarter = chaincfg.NewMedianTimeDeploymentStarter(st.StartTime())
+		}
+		if en, ok := d.DeploymentEnder.(*chaincfg.MedianTimeDeploymentEnder); ok {
+			d.DeploymentEnder = chaincfg.NewMedianTimeDeploymentEnder(en.EndTime())
+		}
+	}
 	if c.bip34 {
 		p.BIP0034Height = 0
 		h := *p.GenesisHash
@@ -323,9 +335,13 @@ type inst struct {
 // btcd's chain state and utxo state live in; stored block bodies stay behind,
 // addressed by hash, and are reused when an identical block is stored again.
 var (
-	sharedDB  database.DB
-	sharedDir string
+	sharedDBs  [multiMax]database.DB
+	sharedDirs [multiMax]string
+	poolMu     sync.Mutex
 )
+
+// multiMax is the number of chain instances a `multi` line may run at once.
+const multiMax = 8
 
 func cleanStale() {
 	root := tmpRoot()
@@ -343,22 +359,33 @@ func cleanStale() {
 	}
 }
 
-func freshDB() database.DB {
-	if sharedDB == nil {
-		cleanStale()
+func freshDB() database.DB { return freshDBn(0) }
+
+// freshDBn returns the wiped database of slot n (each concurrent instance has its own).
+func freshDBn(n int) database.DB {
+	poolMu.Lock()
+	if sharedDBs[n] == nil {
+		if n == 0 {
+			cleanStale()
+		}
 		dir, err := os.MkdirTemp(tmpRoot(), "c03-")
 		if err != nil {
+			poolMu.Unlock()
 			panic(err)
 		}
 		db, err := database.Create("ffldb", dir, wire.TestNet)
 		if err != nil {
 			os.RemoveAll(dir)
+			poolMu.Unlock()
 			panic(err)
 		}
-		sharedDB, sharedDir = db, dir
+		sharedDBs[n], sharedDirs[n] = db, dir
+		poolMu.Unlock()
 		return db
 	}
-	err := sharedDB.Update(func(tx database.Tx) error {
+	db, dir := sharedDBs[n], sharedDirs[n]
+	poolMu.Unlock()
+	err := db.Update(func(tx database.Tx) error {
 		m := tx.Metadata()
 		var buckets, keys [][]byte
 		m.ForEachBucket(func(k []byte) error {
@@ -386,12 +413,12 @@ func freshDB() database.DB {
 	}
 	// keep the directory's age fresh for cleanStale of concurrent runs
 	now := time.Now()
-	os.Chtimes(sharedDir, now, now)
-	return sharedDB
+	os.Chtimes(dir, now, now)
+	return db
 }
 
-func newInst(p *chaincfg.Params, cache uint64) *inst {
-	db := freshDB()
+func newInst(p *chaincfg.Params, cache uint64, slot int) *inst {
+	db := freshDBn(slot)
 	ch, err := blockchain.New(&blockchain.Config{
 		DB: db, ChainParams: p, TimeSource: blockchain.NewMedianTime(), UtxoCacheMaxSize: cache,
 	})
